@@ -146,6 +146,15 @@ def _be_axioms():
 
 AXIOMS.extend(_be_axioms())
 
+s_nonbyte = z3.Function('s_nonbyte', Seq, I)
+
+
+def nonbyte_witness(t):
+    """Sound instance for a sequence known NOT to satisfy isb (isb = every element in 0..255): some
+    in-range element is outside 0..255."""
+    w = s_nonbyte(t)
+    return z3.Or(isb(t), z3.And(0 <= w, w < slen(t), z3.Or(sat(t, w) < 0, sat(t, w) > 255)))
+
 
 def ext_pair_instances(formulas, pairs, limit=150):
     """pairs: list of (f_name, pos, g_name[, gpos]).  For every ground application
@@ -474,6 +483,33 @@ class Verdict:
 STATS = {'z3_queries': 0, 'z3_s': 0.0, 'cvc5_queries': 0, 'cvc5_s': 0.0}
 
 
+def check_trusted(make_solver, timeout_ms):
+    """`solver.check()` under a timeout, guarded against a cancellation race of the installed z3
+    (5.1.0): a check that is being cancelled by its timeout timer occasionally answers `unsat`
+    (measured: axioms only, timeout 500 ms, 3 spurious unsat in 600 runs, all at 93-95% of the
+    timeout; the same deterministic query with 15 s answers unknown).  An `unsat` that arrives in
+    the last 40% of its budget is therefore not believed: the query is repeated once with four
+    times the budget and accepted only if `unsat` comes back within 60% of that.
+    make_solver() must build a fresh solver with everything asserted.
+    Returns (result, solver, seconds)."""
+    s = make_solver()
+    s.set('timeout', int(timeout_ms))
+    t0 = time.time()
+    r = s.check()
+    dt = time.time() - t0
+    if r == z3.unsat and dt * 1000.0 >= 0.6 * timeout_ms:
+        STATS['late_unsat_rechecks'] = STATS.get('late_unsat_rechecks', 0) + 1
+        s2 = make_solver()
+        s2.set('timeout', int(4 * timeout_ms))
+        t1 = time.time()
+        r2 = s2.check()
+        dt2 = time.time() - t1
+        if r2 == z3.unsat and dt2 * 1000.0 >= 0.6 * 4 * timeout_ms:
+            r2 = z3.unknown
+        return r2, s2, dt + dt2
+    return r, s, dt
+
+
 _AX_SYMS = [None, -1]
 
 
@@ -525,14 +561,13 @@ def solve(assumptions, goal, timeout_ms=10000, extra_axioms=(), want_model=True,
     """Check validity of (AXIOMS and assumptions) => goal.
     Returns (verdict, model_or_None, info)."""
     if not extra_axioms and independent_of_axioms(list(assumptions) + [goal]):
-        s0 = z3.Solver()
-        s0.set('timeout', int(timeout_ms))
-        for a in assumptions:
-            s0.add(a)
-        s0.add(z3.Not(goal))
-        t0 = time.time()
-        r0 = s0.check()
-        dt0 = time.time() - t0
+        def mk0():
+            sv = z3.Solver()
+            for a in assumptions:
+                sv.add(a)
+            sv.add(z3.Not(goal))
+            return sv
+        r0, s0, dt0 = check_trusted(mk0, timeout_ms)
         STATS['z3_queries'] += 1
         STATS['z3_s'] += dt0
         if r0 == z3.unsat:
@@ -562,11 +597,7 @@ def solve(assumptions, goal, timeout_ms=10000, extra_axioms=(), want_model=True,
     reason = None
     last = None
     for (mbqi, tmo) in stages:
-        sv = mk(mbqi)
-        sv.set('timeout', int(tmo))
-        t0 = time.time()
-        r = sv.check()
-        dt = time.time() - t0
+        r, sv, dt = check_trusted(lambda: mk(mbqi), tmo)
         total += dt
         STATS['z3_queries'] += 1
         STATS['z3_s'] += dt
@@ -616,15 +647,15 @@ def _cvc5(solver, timeout_ms):
 def feasible(assumptions, timeout_ms=300):
     """Quick satisfiability pre-check used only for pruning paths: returns
     False only on a definite unsat."""
-    s = z3.Solver()
-    s.set('timeout', int(timeout_ms))
-    s.set('smt.mbqi', False)
-    for a in AXIOMS:
-        s.add(a)
-    for a in assumptions:
-        s.add(a)
-    t0 = time.time()
-    r = s.check()
+    def mk():
+        s = z3.Solver()
+        s.set('smt.mbqi', False)
+        for a in AXIOMS:
+            s.add(a)
+        for a in assumptions:
+            s.add(a)
+        return s
+    r, _, dt = check_trusted(mk, timeout_ms)
     STATS['z3_queries'] += 1
-    STATS['z3_s'] += time.time() - t0
+    STATS['z3_s'] += dt
     return r != z3.unsat
